@@ -7,13 +7,15 @@ RULE = ("the real ChunkStore with persistence on a scratch directory (wipe-on-ex
         "destroyed, 0..3 chunk files with arbitrary content are dropped into the directory under any key (everything an "
         "interrupted store or wipe can leave behind: empty, zeroed, partial, full, stale content), and a new ChunkStore is "
         "constructed on the directory. After every operation the directory is listed with file contents; a foreign file and a "
-        "sub-directory named *.chunk stand by. Oracle (independent of the model, a python reference of which chunks are "
+        "sub-directory named *.chunk stand by. 'crash' cases run a put (new key, overwrite) or a sweep in a forked child that is "
+        "killed at its N-th file-system call, for every N, each time followed by a new instance and a listing of EVERYTHING in the directory. Oracle (independent of the model, a python reference of which chunks are "
         "held): with wipe-on-expiry, a chunk file exists only for a key whose latest put is still held and holds exactly those "
         "bytes; after a sweep no file belongs to an expired chunk (also when a lookup noticed the expiry first); after a "
         "restart no chunk file is left; bystanders untouched. non-trivial = a sequence with an expiry or a restart; distinct "
         "= distinct outputs")
-ASSUMPTIONS = ["a crash is represented by its possible outcomes on disk (any content under any chunk key at the time of the next start), "
-               "not by killing the process inside a system call",
+ASSUMPTIONS = ["a crash is explored two ways: by its possible outcomes on disk (any content under any chunk key when the next instance "
+               "starts), and by really running a store / sweep in a child process that dies at its N-th file-system call for every N "
+               "(fopen / open / write, also after half of the bytes / unlink / remove / rename / ftruncate, interposed in the harness binary)",
                "file-system calls succeed (no I/O errors); overwrite passes are not observed, only presence and content"]
 TRUSTED = ["extraction: ExtrOcamlBasic only", "harness/impl_persist.cpp, link-time replacement of the clocks"]
 TIMEOUT = 900
@@ -30,6 +32,20 @@ def generate(rng, tier):
     # the historical failures: expiry first noticed by a lookup; a file from an earlier instance
     cases.append({"ints": [1, 60, 0, 3, 2] + lp(b"abc") + [3, 2000, 1, 3, 2, 3, 1000, 2], "tag": "lookup-first"})
     cases.append({"ints": [1, 60, 0, 3, 5] + lp(b"abc") + [4, 1, 9] + lp(b"stale") + [2, 3, 6000, 2], "tag": "restart-leftover"})
+    # crash enumeration: a store (new key, overwrite) or a sweep is run in a child process that dies at its N-th file-system
+    # call (open / write -- also half a write -- / unlink / rename), for every N; a new instance then starts on the directory
+    for _ in range(n // 10):
+        ints = [1, 60]
+        for _ in range(rng.randrange(0, 3)):
+            ints += [0, rng.randrange(4), rng.choice([2, 5])] + lp(bytes(rng.randrange(256) for _ in range(rng.choice([1, 50, 5000]))))
+        which = rng.choice(["put-new", "put-over", "sweep"])
+        if which == "put-new":
+            ints += [5, 0, 5, 5] + lp(bytes(rng.randrange(256) for _ in range(rng.choice([1, 300, 9000]))))
+        elif which == "put-over":
+            ints += [0, 2, 5] + lp(b"old-bytes-old-bytes") + [5, 0, 2, 5] + lp(bytes(rng.randrange(256) for _ in range(rng.choice([1, 300, 9000]))))
+        else:
+            ints += [0, 3, 1] + lp(bytes(rng.randrange(256) for _ in range(6000))) + [3, 2000, 5, 2]
+        cases.append({"ints": ints, "tag": "crash-" + which})
     for _ in range(n):
         wipe = 0 if rng.random() < 0.2 else 1
         dflt = rng.choice([1, 3, 60])
@@ -101,6 +117,22 @@ def judge(case, impl, model):
                 after_sweep = True
             elif code == 3:
                 now += max(0, ints[p]) * 10 ** 6; p += 1
+            elif code == 5:
+                worst, explored = impl[q], impl[q + 1]; q += 2
+                if worst != 0:
+                    return {"fail": "C04|file-left-behind-by-a-crash-survived-the-restart"}
+                if not explored:
+                    return {"fail": "C04|crash-enumeration-found-no-crash-point"}
+                nontrivial = True
+                tc = ints[p]; p += 1
+                if tc == 0:
+                    k, ttl = ints[p], ints[p + 1]; ln = ints[p + 2]; data = bytes(ints[p + 3:p + 3 + ln]); p += 3 + ln
+                    eff = ttl if ttl > 0 else dflt
+                    held[k] = (data, now + max(eff, 1) * NS)
+                else:
+                    for k in [k for k, (_, dl) in held.items() if now >= dl]:
+                        del held[k]
+                    after_sweep = True
             else:
                 cnt = ints[p]; p += 1
                 for _ in range(cnt):
